@@ -184,11 +184,16 @@ def analyse_flow(seed):
             # class families: descriptor binding through inheritance (gen/descbind.py)
             src, info, feats = D.gen_program(rng)
             feats = ['desc:' + f for f in feats]
+        elif '-seg-' in seed:
+            # generator functions of top-level yields and simple for loops in any interleaving,
+            # unpacked position by position (gen/flowprog.py:gen_segprogram)
+            src, info, feats = F.gen_segprogram(rng)
         else:
             src, info, feats = F.gen_program(rng)
         res = analyse_source(src, info)
         res['features'] = feats
-        res['origin'] = 'generated:descbind' if '-desc-' in seed else 'generated'
+        res['origin'] = 'generated:descbind' if '-desc-' in seed else \
+            ('generated:yield-order' if '-seg-' in seed else 'generated')
         out.append(res)
         if _SHRUNK[0] < 1 and not info.get('selfnest') and _failing(res, 'missing') is not None:
             _SHRUNK[0] += 1
@@ -404,6 +409,7 @@ def start(ctx):
     while k < nd:
         seeds.append('%s-desc-%d' % (ctx.seed, k))
         k += 1
+    seeds += ['%s-seg-%d' % (ctx.seed, i) for i in range(ctx.size(50, 1500))]
     pool = ThreadPoolExecutor(2)
     items = corpus_items()
     return {'pool': pool,
@@ -414,7 +420,7 @@ def start(ctx):
 
 def finish(ctx, h):
     feats = {}
-    nprog = ndesc = 0
+    nprog = ndesc = nseg = 0
     for item, res in zip(h['items'], h['corpus'].result()):
         judge(ctx, res, 'corpus:' + str(item['name']))
     groups = h['gen'].result()
@@ -430,12 +436,15 @@ def finish(ctx, h):
             for f in res.get('features', []):
                 feats[f] = feats.get(f, 0) + 1
             ndesc += res.get('origin') == 'generated:descbind'
+            nseg += res.get('origin') == 'generated:yield-order'
             judge(ctx, res, res.get('origin', 'generated'))
     h['pool'].shutdown()
     ctx.hist.setdefault('flow-features', {}).update(feats)
     ctx.notes.append('flow: %d generated programs (%d of them class families of gen/descbind.py: descriptor '
-                     'binding through inheritance) (+%d corpus), executed and inferred at every reached probe'
-                     % (nprog, ndesc, len(h['items'])))
+                     'binding through inheritance, %d of gen/flowprog.py:gen_segprogram: generator functions of '
+                     'top-level yields and simple for loops in any interleaving, unpacked position by position) '
+                     '(+%d corpus), executed and inferred at every reached probe'
+                     % (nprog, ndesc, nseg, len(h['items'])))
     ctx.obligations.setdefault('assumptions', [])
     ctx.obligations['assumptions'] = list(ctx.obligations['assumptions']) + [
         'stream flow is oracle-only (no Lean model of loops / generators): CPython is the ground truth, the '
@@ -466,3 +475,158 @@ def replay(ctx, payload):
             print('  property holds here now')
     print('expected at record time:', payload.get('expected'), 'observed at record time:', payload.get('observed'))
     return rc
+
+
+# ------------------------------------------ stream `yieldorder` (Model/YieldOrder, correspondence)
+
+YO_KINDS = ('top', 'loop1', 'loop2', 'looptry', 'trytop', 'if', 'nested', 'tuple', 'while')
+
+
+def yieldorder_build(kinds, lens):
+    """the generator function `g` of one item: kinds[i] is the i-th statement of the body, lens[i]
+    the number of elements a for statement there iterates over.  Returns (source of the classes and
+    of g, parents [[yield id, tag, for id]] as get_yield_lazy_values classifies the yields (0 directly
+    in the body - also inside try/with -, 1 in a for directly in the body with one loop name, 2
+    anything else), lens [[for id, n]], label of every (yield id, iteration) position, all classes).
+    The first yield of a for yields the loop variable (elements of classes E<f>_<i>), every other
+    yield an instance of its own class K<y>."""
+    body, parents, lns, classes = [], [], [], []
+    first = {}
+    y = 0
+
+    def k():
+        nonlocal y
+        y += 1
+        classes.append('K%d' % y)
+        return y
+    for f, (kind, n) in enumerate(zip(kinds, lens), 1):
+        els = ['E%d_%d' % (f, i) for i in range(n)]
+        tup = '(%s%s)' % (', '.join(e + '()' for e in els), ',' if n == 1 else '')
+        if kind == 'top':
+            body.append('    yield K%d()' % k())
+            parents.append([y, 0, 0])
+        elif kind == 'trytop':
+            body += ['    try:', '        yield K%d()' % k(), '    finally:', '        pass']
+            parents.append([y, 0, 0])
+        elif kind in ('loop1', 'loop2', 'looptry'):
+            classes += els
+            lns.append([f, n])
+            body.append('    for x%d in %s:' % (f, tup))
+            first[k()] = f
+            classes.pop()             # the first yield of a for yields the loop variable
+            parents.append([y, 1, f])
+            if kind == 'looptry':
+                body += ['        try:', '            yield x%d' % f, '        finally:', '            pass']
+            else:
+                body.append('        yield x%d' % f)
+            if kind == 'loop2':
+                body.append('        yield K%d()' % k())
+                parents.append([y, 1, f])
+        elif kind == 'if':
+            body += ['    if K%d():' % k(), '        yield K%d()' % y]
+            parents.append([y, 2, 0])
+        elif kind == 'while':
+            body += ['    while K%d():' % k(), '        yield K%d()' % y, '        break']
+            parents.append([y, 2, 0])
+        elif kind == 'nested':
+            classes += els
+            body += ['    for x%d in %s:' % (f, tup), '        for z%d in (x%d,):' % (f, f), '            yield z%d' % f]
+            k()
+            classes.pop()
+            parents.append([y, 2, f])
+        elif kind == 'tuple':
+            classes += els
+            body += ['    for x%d, z%d in (%s):' % (f, f, ''.join('(%s(), %s()), ' % (e, e) for e in els)),
+                     '        yield z%d' % f]
+            k()
+            classes.pop()
+            parents.append([y, 2, f])
+        else:
+            raise AssertionError(kind)
+    src = ''.join('class %s: pass\n' % c for c in classes) + 'def g():\n' + '\n'.join(body) + '\n'
+
+    def label(yid, it):
+        return 'K%d' % yid if it is None or yid not in first else 'E%d_%d' % (first[yid], it)
+    return src, parents, lns, label, sorted(classes)
+
+
+def yieldorder_items(ctx):
+    """ALL bodies of up to 2 (quick) / 4 (thorough) statements over YO_KINDS, random longer ones"""
+    import itertools
+    rng = ctx.subrng('yieldorder')
+    items = []
+    for n in range(1, ctx.size(2, 4) + 1):
+        for kinds in itertools.product(YO_KINDS, repeat=n):
+            items.append({'kinds': list(kinds), 'lens': [rng.choice([1, 2, 2, 3]) for _ in kinds]})
+    ordered = YO_KINDS[:5]
+    for _ in range(ctx.size(120, 3000)):
+        n = rng.randint(3, 6)
+        pool = ordered if rng.random() < 0.8 else YO_KINDS
+        items.append({'kinds': [rng.choice(pool) for _ in range(n)],
+                      'lens': [rng.choice([0, 1, 2, 2, 3]) for _ in range(n)]})
+    return items
+
+
+def yieldorder_request(item):
+    _, parents, lns, _, _ = yieldorder_build(item['kinds'], item['lens'])
+    return {'op': 'yieldorder', 'parents': parents, 'lens': lns}
+
+
+def analyse_yieldorder(item):
+    """the REAL BaseFunctionExecutionContext.get_yield_lazy_values on the function value of `g`
+    (obtained through the API's name -> value path): the class names of every lazy value, in order"""
+    import jedi
+    src = yieldorder_build(item['kinds'], item['lens'])[0]
+    try:
+        name = [d for d in jedi.Script(src).get_names() if d.name == 'g'][0]
+        (fv,) = name._name.infer()
+        fctx = fv.as_context()
+        return {'real': [sorted(v.name.string_name for v in lv.infer()) for lv in fctx.get_yield_lazy_values()]}
+    except Exception as e:
+        return {'raised': '%s@%s' % common.exc_site(e)}
+
+
+def yieldorder_oracle_source(item):
+    """the program the direct oracle runs for one item: g() unpacked position by position (as many
+    targets as the RUN yields), every target probed"""
+    src = yieldorder_build(item['kinds'], item['lens'])[0]
+    g = {}
+    exec(compile(src, '<yieldorder>', 'exec'), g)
+    n = len(list(g['g']()))
+    if n == 0:
+        return None
+    names = ['n%d' % i for i in range(1, n + 1)]
+    lines = ['%s%s = g()' % (', '.join(names), ',' if n == 1 else '')]
+    for i, nm in enumerate(names, 1):
+        lines += ['t%d = %s' % (i, nm), 't%d' % i]
+    return src + '\n'.join(lines) + '\n'
+
+
+def judge_yieldorder(ctx, items, outs, answers):
+    for it, out, ans in zip(items, outs, answers):
+        key = (tuple(it['kinds']), tuple(it['lens']))
+        if 'raised' in out:
+            ctx.count('raised', key, nontrivial=False, bucket='yieldorder:' + out['raised'])
+            continue
+        if ans is None:
+            continue
+        if 'error' in ans:
+            raise common.InfraError('driver: %r' % ans)
+        _, _, _, label, classes = yieldorder_build(it['kinds'], it['lens'])
+        if ans['order'] is None:
+            want = [classes] if classes else []       # given up: one value, the union of all yields
+        else:
+            want = [[label(y, i)] for y, i in ans['order']]
+        mixed = ans['order'] is not None and len({k[:4] for k in it['kinds']}) > 1
+        ctx.count('yieldorder', key, nontrivial=mixed,
+                  bucket='given-up' if ans['order'] is None else ('mixed' if mixed else 'uniform'),
+                  sample={'kinds': it['kinds'], 'lens': it['lens'], 'stream': out['real']})
+        if out['real'] != want:
+            ctx.tie_broken('correspondence:yieldorder', common.short(
+                {'kinds': it['kinds'], 'lens': it['lens'], 'real': out['real'], 'model': want}, 1200))
+            # failing-input search: the direct oracle on the same generator, unpacked
+            src = yieldorder_oracle_source(it)
+            if src is not None:
+                res = analyse_source(src)
+                res['features'] = []
+                judge(ctx, res, 'generated:yieldorder', count=False)
